@@ -568,7 +568,7 @@ CLAUSES += _cl("input_unchanged_aliasing", builder_case(6, aliasing=True, prior_
                builder_case(10, aliasing=True, prior_kinds=("none", "none", "int", "matrix")), run_input_unchanged,
                600, 6000)
 CLAUSES += [Clause("normalize_int32_large_totals", int32_large_case(), run_int32_large, quick=200, thorough=3000)]
-CLAUSES += [Clause("stationary_large_sparse", big_sparse_case(), run_big_sparse, quick=12, thorough=120)]
+CLAUSES += [Clause("stationary_large_sparse", big_sparse_case(), run_big_sparse, quick=24, thorough=200)]
 CLAUSES += [Clause("product", builder_case(4), run_product, quick=0, thorough=0, exhaustive=exhaustive_product)]
 CLAUSES += [Clause("sparse_array_observed", builder_case(5, outside=True), run_sparse_array,
                    quick=160, thorough=1500)]
